@@ -7,6 +7,13 @@ R6 extends the agreement from *which* codec to *how it is configured*: a writer 
 but must not move it outside what the reader's decoder returns unchanged (yaml allow_unicode=True -> raw U+0085 -> folded
 into a space by safe_load; yaml default_style='>'; json separators that are not JSON).  The option tables below say which
 options are known harmless, which are known lossy, and everything else is an analysis error.
+
+R7 extends it to *presence*: an optional per-deployment value (secrets[name], generations[name]) is absent exactly when the
+reader's BackupEntry field comes out None; whatever decides on the writing side whether its file is written (and on the reading
+side whether it is stored / handed on) must therefore be a test of absence (`is not None`, `name in map`), never of truthiness:
+the declared value types admit falsy payloads ({} = a Secret without keys, generation 0).  Decided by finite evaluation
+(absint.Interp over the path tests, the payload, the reader's store and the field expression) for the falsy and a truthy member of
+each kind the declared type admits, not by the spelling of the test.
 """
 
 from __future__ import annotations
@@ -15,9 +22,11 @@ import ast
 import copy
 from pathlib import Path
 
+from ..absint import Interp, Raised, Record
+from ..absint import Unsupported as EvalUnsupported
 from ..astx import atoms, call_name, dotted, enclosing_stmt, expand, facts_at, kwarg, last, reaching_def
 from ..cfg import CFG
-from ..index import AnchorError, FuncNode, _set_parents, enclosing_function, parent
+from ..index import AnchorError, FuncNode, _set_parents, ancestors, enclosing_function, parent
 from ..selftest import Twin
 from .c17 import _multi
 from .c32 import Alphabet, L_all, L_union, L_word, Unsupported, regex_charsets, regex_match_lang, regex_preds
@@ -55,11 +64,21 @@ EXPLANATION = (
     "yaml default_flow_style, sort_keys, indent, width, explicit_start, explicit_end, canonical, line_break, default_style in (None, '\"', \"'\", '|'), encoding None/utf-8, Dumper=yaml.SafeDumper/yaml.Dumper; "
     "json indent, sort_keys, ensure_ascii, check_circular, allow_nan (these change the text or what is refused, never what loads returns). Any other option (json default/skipkeys/cls, yaml tags/version/stream, C emitters), "
     "a non-constant option value, `**kwargs`, or any value-replacing option on the decoding side (json.loads parse_*/object_hook/cls, yaml.load with a loader other than the pure-Python ones) is an analysis error, not a pass. "
+    "R7 (present-but-empty is not absent; finite evaluation): for each optional per-deployment value - a map parameter of the writer other than the deployment list (secrets -> BackupEntry.secret, generations -> "
+    "BackupEntry.generation) - the values one entry can hold are sampled from the declared type `dict[str, V]`: for every kind V admits (dict, list, str, int, float, bool; undeclared / Any: all of them) its falsy member "
+    "and a truthy one ({} and {'k': 'v'}; 0 and 1), each with and without a password. present-is-written:<map>: with map[name] set to the sample, every test on every path to some write of that value's file (edge dominators "
+    "of the write in the CFG, so nested ifs, early continue / return, a walrus inside the test, a local holding the lookup and a helper folded back all read the same) evaluates - on the AST, locals resolved through their reaching definition - to the outcome that reaches "
+    "the write. A truthiness test (`if secret_data:`, `if x := m.get(name):`, `and len(x) > 0`, `m.get(name)` for an int) fails this for the falsy sample: nothing is written, read_backup_archive returns None for a value that was "
+    "backed up, restore never re-creates the (empty) Secret. Truthiness of the *map* next to a membership test (`generations and name in generations`) passes, because an empty map has no entry. "
+    "restored-as-backed-up:<map>: the payload expression of the reached write is evaluated (codecs modelled as exact inverses - their agreement is R1/R6), handed as member content to the reader branch R1 routes the file to, the tests on the way to that "
+    "branch's store are evaluated, then the stored value and the BackupEntry field expression; the field must equal the sample (same type, same value), and with no entry at all it must be None (`x or None`, `.get(name, {})`, "
+    "`if loaded:` before the store, `dump(x or None)` all fail). A test or expression on that route the evaluator cannot decide is an analysis error when the value can flow into it and is skipped otherwise. "
+    "Not decided by R7: values nested deeper than one entry (a secret whose *value* is ''), maps keyed by anything but the deployment name, presence decisions taken outside archive.py (the service that fills the maps). "
     "Not decided: YAML/JSON value fidelity under default options for values outside str/int/float/bool/None/list/dict, tar/gzip, AES-GCM and PBKDF2 guarantees (trusted), deployments without a valid name."
 )
 TRUSTED = ["CPython ast, re._parser", "yaml/json round-trip, tarfile, cryptography (AES-GCM authenticates key and data)"]
-LEVEL_NOTE = "writer-reader agreement decided on file-name languages, byte layouts, predicates and encoder options; value fidelity under the accepted options is trusted to yaml/json"
-TECHNIQUE = "regular-language decision list for the reader chain; segment/slice algebra; predicate classification"
+LEVEL_NOTE = "writer-reader agreement decided on file-name languages, byte layouts, predicates, encoder options and (by finite evaluation) presence of optional values; value fidelity under the accepted options is trusted to yaml/json"
+TECHNIQUE = "regular-language decision list for the reader chain; segment/slice algebra; predicate classification; finite evaluation of presence tests over falsy/truthy samples of the declared types"
 
 ARCHIVE = "llama_agents.control_plane.backup.archive"
 ENCRYPTION = "llama_agents.control_plane.backup.encryption"
@@ -206,6 +225,7 @@ class Writer:
         if helper:
             fn = _sink_into_branches(fn, lambda st: isinstance(st, ast.Expr) and isinstance(st.value, ast.Call) and isinstance(st.value.func, ast.Name) and st.value.func.id == helper[0])
         self.fn = fn
+        self.data_idx = helper[2] if helper else 1
         self.entries: list[dict] = []
         sites: list[tuple[ast.Call, ast.AST, ast.AST]] = []
         for c in ast.walk(fn):
@@ -222,7 +242,7 @@ class Writer:
             var, suffix = _template(expand(name_e, st, depth=1) if isinstance(name_e, ast.Name) else name_e)  # a local holding the member name: one level
             data_x = expand(data_e, st, depth=4)
             ops, payload = codec_chain(data_x)
-            root = _root_param(data_e, fn, st)
+            root = _root_param(data_e, fn, st) or _root_by_flow(data_e, fn)
             keys = None
             pe = payload
             if isinstance(pe, ast.Name):
@@ -367,6 +387,7 @@ class Reader:
         b["dest"] = None
         b["ops"] = None
         b["codec_expr"] = None
+        b["store"] = None  # the statement that stores the decoded value (R7 evaluates it)
         for n in ast.walk(self.fn):
             if isinstance(n, ast.Assign) and len(n.targets) == 1 and enclosing_function(n) is self.fn:
                 nodes = self.cfg.nodes_of(n)
@@ -380,6 +401,7 @@ class Reader:
                     b["codec_expr"] = _xexpand(val, n, depth=4)
                     ops, _root = codec_chain(b["codec_expr"])
                     b["ops"] = ops
+                    b["store"] = n
                 elif isinstance(tgt, ast.Name):
                     ops, root = codec_chain(val)
                     if ops and b["dest"] is None and not any(isinstance(x, ast.Name) and x.id == self.subject for x in ast.walk(val)):
@@ -917,6 +939,318 @@ def _kdf_input(kfn: ast.AST) -> ast.AST:
     raise AnchorError(f"`{getattr(kfn, 'name', '?')}` hands nothing to a primitive key derivation (`.derive(...)` / `pbkdf2_hmac`) the rule recognises")
 
 
+# ------------------------------------------------------------------------------ R7 helpers (optional values: present-but-empty is not absent)
+_N = "web"  # the deployment name the finite evaluation uses (a word of the `_DNS_1035_RE` language)
+_SAMPLES: dict[str, list] = {
+    "dict": [{}, {"k": "v"}], "list": [[], ["x"]], "str": ["", "x"], "int": [0, 1], "float": [0.0, 1.5], "bool": [False, True],
+}
+_TYPE_ALIASES = {"Dict": "dict", "Mapping": "dict", "MutableMapping": "dict", "List": "list", "Sequence": "list"}
+_ENCODERS, _DECODERS = YAML_DUMP + ("json.dumps",), YAML_LOAD + ("json.loads",)
+
+
+def _type_head(t: ast.AST | None) -> str | None:
+    if isinstance(t, ast.Subscript):
+        t = t.value
+    n = last(dotted(t)) if t is not None else None
+    return _TYPE_ALIASES.get(n, n) if n else None
+
+
+def _strip_optional(t: ast.AST | None) -> list[ast.AST]:
+    """Members of a declared type other than None (`X | None`, `Optional[X]`, `Union[X, None]`)."""
+    if t is None:
+        return []
+    if isinstance(t, ast.Constant) and isinstance(t.value, str):
+        try:
+            t = ast.parse(t.value, mode="eval").body
+        except SyntaxError:
+            return []
+    if isinstance(t, ast.BinOp) and isinstance(t.op, ast.BitOr):
+        return _strip_optional(t.left) + _strip_optional(t.right)
+    if isinstance(t, ast.Constant) and t.value is None:
+        return []
+    if isinstance(t, ast.Subscript) and last(dotted(t.value)) in ("Optional", "Union"):
+        elts = t.slice.elts if isinstance(t.slice, ast.Tuple) else [t.slice]
+        return [m for x in elts for m in _strip_optional(x)]
+    return [t]
+
+
+def value_samples(ann: ast.AST | None) -> tuple[str, list]:
+    """The values a map parameter may hold under one name, read from its declared type `dict[str, V]` (optional or not): for
+    every kind V admits, its falsy member and a truthy one.  Undeclared / `Any` / a type the table does not know: every kind."""
+    every = [v for vs in _SAMPLES.values() for v in vs]
+    members = _strip_optional(ann)
+    if len(members) != 1 or _type_head(members[0]) != "dict" or not isinstance(members[0], ast.Subscript):
+        return "Any", every
+    sl = members[0].slice
+    if not (isinstance(sl, ast.Tuple) and len(sl.elts) == 2):
+        return "Any", every
+    out: list = []
+    for m in _strip_optional(sl.elts[1]):
+        h = _type_head(m)
+        if h not in _SAMPLES:
+            return "Any", every
+        out += [v for v in _SAMPLES[h] if not any(type(v) is type(o) and v == o for o in out)]
+    return ast.unparse(sl.elts[1]), out or every
+
+
+def _text_of(v) -> Record:
+    """Model of an encoded document: whatever is done to it as text / bytes (`.encode()`, encryption) leaves what it decodes to."""
+    r = Record("EncodedText", value=v)
+    r.__dict__["encode"] = r.__dict__["decode"] = lambda *a, **k: r
+    return r
+
+
+_LOCALS: dict[int, tuple[ast.AST, set[str]]] = {}  # function (kept alive with its id) -> names it binds
+
+
+class _Ev(Interp):
+    """absint.Interp over expressions *in place* (nodes of the analysed function): a name the environment does not bind is
+    the loop / comprehension variable of an enclosing loop (first element of the evaluated iterable), or stands for its one
+    reaching straight-line definition (also the `if missing: raise … else: x = v` shape), evaluated where it is written.
+    Codecs are modelled as exact inverses (their agreement is R1 / R6): dump -> EncodedText(value), load -> value, encrypt /
+    decrypt -> the data argument; `<file>.read()` gives the member's content the rule injected."""
+
+    def __init__(self, content=None):
+        super().__init__({})
+        self.content = content
+        self.depth = 0
+
+    def e_NamedExpr(self, e, env):
+        v = self.eval(e.value, env)
+        env[e.target.id] = v
+        return v
+
+    def e_Name(self, e, env):
+        if e.id in env or not isinstance(e.ctx, ast.Load) or parent(e) is None or self.depth > 12:
+            return super().e_Name(e, env)
+        below: ast.AST = e
+        for a in ancestors(e):
+            gens = a.generators if isinstance(a, (ast.ListComp, ast.SetComp, ast.DictComp, ast.GeneratorExp)) else [a] if isinstance(a, (ast.For, ast.AsyncFor)) and below is not a.iter else []
+            for g in gens:
+                if any(isinstance(t, ast.Name) and t.id == e.id for t in ast.walk(g.target)):
+                    items = list(self.eval(g.iter, env))
+                    if not items:
+                        raise EvalUnsupported(f"loop over `{ast.unparse(g.iter)[:40]}` has no element in the sample")
+                    self.assign(g.target, items[0], env)
+                    return env[e.id]
+            if isinstance(a, FuncNode):
+                break
+            below = a
+        d = reaching_def(e.id, e)
+        if d is None:
+            g_ = _guarded_def(e.id, e)
+            d = g_[0] if g_ is not None else None
+        fn_ = enclosing_function(e) or e
+        if d is None and e.id not in _LOCALS.setdefault(id(fn_), (fn_, set(_value_defs(fn_))))[1]:
+            # not a local at all: a module-level constant (`_NO_SECRET = None`), bound once at the top level
+            top = [x for x in ancestors(e) if isinstance(x, ast.Module)]
+            tops = [n.value for n in (top[0].body if top else []) if isinstance(n, (ast.Assign, ast.AnnAssign)) and n.value is not None
+                    and any(isinstance(t, ast.Name) and t.id == e.id for t in (n.targets if isinstance(n, ast.Assign) else [n.target]))]
+            d = tops[0] if len(tops) == 1 else None
+        if d is not None:
+            self.depth += 1
+            try:
+                return self.eval(d, env)
+            finally:
+                self.depth -= 1
+        return super().e_Name(e, env)
+
+    def e_Call(self, e, env):
+        n = call_name(e) or ""
+        if n in _ENCODERS and e.args:
+            return _text_of(self.eval(e.args[0], env))
+        if n in _DECODERS and e.args:
+            x = self.eval(e.args[0], env)
+            return x.value if isinstance(x, Record) and x._cls == "EncodedText" else x
+        if last(n) in ("encrypt", "decrypt") and e.args and not isinstance(e.func, ast.Attribute):
+            vals = [self.eval(a, env) for a in e.args] + [self.eval(k.value, env) for k in e.keywords]
+            return vals[0]
+        if isinstance(e.func, ast.Attribute) and e.func.attr == "read" and not e.args and self.content is not None:
+            return self.content
+        return super().e_Call(e, env)
+
+
+def _same(a, b) -> bool:
+    return type(a) is type(b) and a == b
+
+
+def _path_tests(cfg: CFG, stmt: ast.AST) -> list[tuple[ast.AST, bool]]:
+    """(if / while statement, outcome of its test) for every branch edge each path from the function entry to `stmt` takes."""
+    out: dict[int, tuple[ast.AST, bool]] = {}
+    for n in cfg.nodes_of(stmt):
+        for t, lab in cfg.guards(n):
+            if t.kind == "test" and lab in ("T", "F") and getattr(t.ast, "test", None) is not None:
+                out[id(t.ast)] = (t.ast, lab == "T")
+    return sorted(out.values(), key=lambda x: (x[0].lineno, x[0].col_offset))
+
+
+def _may_read(e: ast.AST, defs: dict[str, list[ast.AST]], names: set[str], reads_file: bool = False) -> bool:
+    """Can the value of `e` depend (through any assignment of the function, flow-insensitive) on one of `names` / on file content?"""
+    seen: set[str] = set()
+    work = [e]
+    while work:
+        x = work.pop()
+        for n in ast.walk(x):
+            if isinstance(n, ast.Name):
+                if n.id in names:
+                    return True
+                if n.id not in seen:
+                    seen.add(n.id)
+                    work.extend(defs.get(n.id, []))
+            elif reads_file and isinstance(n, ast.Call) and isinstance(n.func, ast.Attribute) and n.func.attr == "read":
+                return True
+    return False
+
+
+def _root_by_flow(data_e: ast.AST, fn: ast.AST) -> str | None:
+    """Role parameter a payload is taken from when it is not reachable through straight-line locals (a name bound by `:=`
+    inside a test, bound in both arms of an `if`, …): any assignment that can flow into it; a map role wins over `deployments`
+    (the deployment name, which every payload is looked up under, comes from there)."""
+    params = {a.arg for a in fn.args.args + fn.args.kwonlyargs}
+    defs = _value_defs(fn)
+    hit = [r for r in ROLE_FIELD if r in params and _may_read(data_e, defs, {r})]
+    return next((r for r in hit if r != "deployments"), hit[0] if hit else None)
+
+
+def _run_tests(ev: _Ev, tests: list[tuple[ast.AST, bool]], env: dict, defs, names: set[str], selectors: set[str], reads_file: bool, what: str) -> list[tuple[ast.AST, str]]:
+    """Evaluate the tests on the way to a site that the value under study (`names` / file content) or a selector (the password,
+    the member name: they choose *which* site handles the value) can flow into; [(failing test, why)].  Every other test is about
+    something else (the deployment document, the tar member) and is taken to let the site be reached.  A test of the value that the
+    evaluator cannot decide is an analysis error; an undecidable selector test is skipped."""
+    failing: list[tuple[ast.AST, str]] = []
+    for node, want in tests:
+        dep = _may_read(node.test, defs, names, reads_file)
+        if not dep and not _may_read(node.test, defs, selectors):
+            continue
+        try:
+            got = ev.truth(ev.eval(node.test, env))
+        except EvalUnsupported as x:
+            if dep:
+                raise AnchorError(f"C33.R7: the test `{ast.unparse(node.test)[:60]}` at line {node.lineno} on the way to {what} cannot be evaluated ({x})")
+            continue
+        except Raised as x:
+            failing.append((node, f"`{ast.unparse(node.test)[:60]}` raises {x}"))
+            break
+        if got != want:
+            failing.append((node, f"`{ast.unparse(node.test)[:70]}` (line {node.lineno}) comes out {'false' if want else 'true'}"))
+            break
+    return failing
+
+
+def presence_rules(W: "Writer", R: "Reader", wfn: ast.AST, rfn: ast.AST, pw: str, rpw: str, dest_fields: dict[str, set[str]]):
+    """R7: for every optional per-deployment value (a role map of the writer other than the deployment list) and every value
+    its declared type admits under one name, including each falsy one, follow the value from the writer's presence test through
+    the written payload, the reader branch that takes the file, the stored container and the BackupEntry field expression."""
+    wf = W.fn
+    wcfg = CFG(wf)
+    wdefs, rdefs = _value_defs(wf), _value_defs(rfn)
+    wparams = {a.arg: a for a in wf.args.args + wf.args.kwonlyargs}
+    name_var = next((e["var"] for e in W.entries if e["var"] is not None), None)
+    ctor = [c for c in ast.walk(rfn) if isinstance(c, ast.Call) and last(call_name(c)) == "BackupEntry"]
+    if name_var is None or not ctor:
+        raise AnchorError("C33.R7: no per-deployment file / no BackupEntry construction to follow")
+    cr_dest = next((d for d, fs in dest_fields.items() if "cr" in fs), None)
+    crdoc = {"metadata": {"name": _N}}
+    tests_of: dict[int, list] = {}
+    nroles = ntests = nsamples = nfollowed = 0
+    for role, field in ROLE_FIELD.items():
+        if role == "deployments":
+            continue
+        if role not in wparams:
+            raise AnchorError(f"C33.R7: `{WRITER}` has no `{role}` parameter")
+        nroles += 1
+        tname, samples = value_samples(wparams[role].annotation)
+        ents = [e for e in W.entries if e["var"] is not None and e["root"] == role]
+        kwv = next((k.value for k in ctor[0].keywords if k.arg == field), None)
+        missed: list[str] = []
+        lost: list[str] = []
+        miss_node: ast.AST = ents[0]["call"] if ents else wf
+        lost_node: ast.AST = kwv if kwv is not None else ctor[0]
+        seen_tests: set[int] = set()
+
+        def field_value(containers: dict) -> object:
+            fenv = {d: {} for d in dest_fields}
+            if cr_dest is not None:
+                fenv[cr_dest] = {_N: crdoc}
+            fenv.update(containers)
+            return _Ev().eval(kwv, fenv)
+
+        for v in samples:
+            for p in (None, "pw"):
+                nsamples += 1
+                shown = f"{role}[name] == {v!r}" + (", no password" if p is None else ", with a password")
+                live, nearest = [], None
+                for e in ents:
+                    st = enclosing_stmt(e["call"])
+                    if id(st) not in tests_of:
+                        tests_of[id(st)] = _path_tests(wcfg, st)
+                    env = {r: {} for r in ROLE_FIELD if r in wparams}
+                    env.update({"deployments": [crdoc], role: {_N: v}, name_var: _N, pw: p, "namespace": "ns", "timestamp": "ts"})
+                    ev = _Ev()
+                    failing = _run_tests(ev, tests_of[id(st)], env, wdefs, {role}, {pw}, False, f"the write of `<name>{e['suffix']}`")
+                    for node, _w in tests_of[id(st)]:
+                        if _may_read(node.test, wdefs, {role}):
+                            seen_tests.add(id(node))
+                    if not failing:
+                        live.append((e, ev, env))
+                    elif nearest is None or _may_read(failing[0][0].test, wdefs, {role}):
+                        nearest = (e, failing[0])
+                if not live:
+                    nfollowed += 1  # verdict: nothing is written for this value
+                    if nearest is not None:
+                        miss_node = nearest[1][0]
+                    missed.append(f"with {shown} {nearest[1][1] if nearest else 'no write site is reached'}, so no `<name>{'` / `<name>'.join(sorted({e['suffix'] for e in ents}))}` file is written")
+                    continue
+                for e, ev, env in live:
+                    nfollowed += 1  # every reached write is taken to a verdict below (or is one R1 / R4 already report), or the run ends in an analysis error
+                    b = e.get("branch")
+                    if b is None or kwv is None:
+                        continue  # not routed to exactly one reader branch / field not populated: R1 `routed:` / R4 `entry-field:` report exactly that
+                    if b.get("store") is None:
+                        raise AnchorError(f"C33.R7: reader branch `{b['text']}` stores nothing the rule can follow")
+                    try:
+                        text = ev.eval(e["call"].args[W.data_idx], env)
+                        rev = _Ev(content=text)
+                        renv = {rpw: p, R.subject: _N + e["suffix"]}
+                        store = b["store"]
+                        failing = _run_tests(rev, _path_tests(R.cfg, store), renv, rdefs, set(), {rpw, R.subject}, True, f"the store of `{b['text']}` files")
+                        if failing:
+                            lost.append(f"with {shown} the reader's test {failing[0][1]}, so the `{b['text']}` file is not stored")
+                            lost_node = failing[0][0]
+                            continue
+                        stored = rev.eval(store.value, renv)
+                        key = rev.eval(store.targets[0].slice, renv)
+                        got = field_value({b["dest"]: {key: stored}})
+                    except EvalUnsupported as x:
+                        raise AnchorError(f"C33.R7: cannot follow `{role}` through `<name>{e['suffix']}` into BackupEntry.{field}: {x}")
+                    except Raised as x:
+                        lost.append(f"with {shown} following the value through `<name>{e['suffix']}` raises {x}")
+                        continue
+                    if not _same(got, v):
+                        lost.append(f"{shown} is written to `<name>{e['suffix']}` and comes back as BackupEntry.{field} == {got!r}")
+        if kwv is not None:
+            try:
+                got = field_value({})
+            except EvalUnsupported as x:
+                raise AnchorError(f"C33.R7: cannot evaluate BackupEntry.{field} for a deployment without a `{role}` entry: {x}")
+            except Raised as x:
+                got = f"<raises {x}>"
+            if got is not None:
+                lost.append(f"a deployment with no entry in `{role}` (no file written) comes back as BackupEntry.{field} == {got!r} instead of None")
+        ntests += len(seen_tests)
+        n_, k_ = len(samples), ", ".join(repr(v) for v in samples)
+        yield ("ob", "C33.R7", f"present-is-written:{role}", f"every value `{role}[name]: {tname}` can hold ({n_} samples incl. each falsy one: {k_}; with and without a password) passes the tests "
+               f"on the way to a write of its file: present-but-empty is not treated as absent", not missed, "a", miss_node, wfn,
+               "; ".join(missed[:3]) + f". `{READER}` then returns BackupEntry.{field} = None for a deployment that was backed up with a value, and restore never re-creates it. "
+               f"The test that decides whether the file is written must be the test of absence itself (`is not None` / `name in {role}`), as on the reading side, not truthiness, which conflates 'absent' with 'present but empty'")
+        yield ("ob", "C33.R7", f"restored-as-backed-up:{role}", f"every such value, followed through the written payload, the reader branch of its file and the BackupEntry.{field} expression (codecs taken as exact inverses), "
+               f"comes back identical; no entry comes back as None", not lost, "a", lost_node, rfn, "; ".join(lost[:3]))
+    yield ("floor", "C33.R7", "optional values followed from writer to BackupEntry field", nroles)
+    yield ("floor", "C33.R7", "writer tests that read an optional value's map, evaluated", ntests)
+    yield ("floor", "C33.R7", "(value, password) samples evaluated", nsamples)
+    yield ("floor", "C33.R7", "verdicts (no write reached for a value / a reached write followed through the reader into the BackupEntry field)", nfollowed)
+
+
 # ------------------------------------------------------------------------------ evaluation
 def eval_rules(arch_tree: ast.AST, enc_tree: ast.AST, dns_pattern: str):
     """Yields ('ob', rule, instance, desc, ok, which-tree, node, fn, reason) / ('floor', rule, what, n)."""
@@ -978,6 +1312,7 @@ def eval_rules(arch_tree: ast.AST, enc_tree: ast.AST, dns_pattern: str):
         if len(whole) != 1:
             continue
         b = R.branches[whole[0]]
+        e["branch"] = b  # the one reader branch that takes this kind of file (R7 follows the value through it)
         if e["var"] is not None:
             strip = b["strip"]
             if strip is None:
@@ -1223,6 +1558,9 @@ def eval_rules(arch_tree: ast.AST, enc_tree: ast.AST, dns_pattern: str):
         for f in fields:
             yield ("ob", "C33.R4", f"entry-field:{f}", f"BackupEntry.{f} is populated by the reader", f in given, "a", ctor[0], rfn, "field left at its default")
 
+    # ---------------------------------------------------------------- R7 (an optional value that is present but empty is not absent)
+    yield from presence_rules(W, R, wfn, rfn, pw, rpw, dest_fields)
+
 
 def _cls_txt(c: str) -> str:
     return {"none": "is (not) None", "truthy": "truthiness", "other": "other comparison"}[c]
@@ -1280,6 +1618,9 @@ FLOORS = {
     ("C33.R5", "password hand-over sites"): 5,
     # .yaml + .secret.enc + .secret.yaml (the secret dump feeds both) + manifest.json + .meta.json; one decoder per reader branch
     ("C33.R6", "encoding calls (yaml.dump / json.dumps) feeding archive files"): 5, ("C33.R6", "decoding calls (yaml.safe_load / json.loads) in reader branches"): 5,
+    # secrets -> secret, generations -> generation; `secret_data is not None` and `generations and name in generations`; ({}, {'k': 'v'}) x 2 + (0, 1) x 2
+    ("C33.R7", "optional values followed from writer to BackupEntry field"): 2, ("C33.R7", "writer tests that read an optional value's map, evaluated"): 2,
+    ("C33.R7", "(value, password) samples evaluated"): 8, ("C33.R7", "verdicts (no write reached for a value / a reached write followed through the reader into the BackupEntry field)"): 8,
 }
 
 
@@ -1303,7 +1644,7 @@ def run(chk) -> None:
     for item in eval_rules(tree, tree, dns):
         if item[0] == "ob" and not item[4]:
             bad[item[1]] = bad.get(item[1], 0) + 1
-    for rule in ("C33.R1", "C33.R2", "C33.R3", "C33.R4", "C33.R5", "C33.R6"):
+    for rule in ("C33.R1", "C33.R2", "C33.R3", "C33.R4", "C33.R5", "C33.R6", "C33.R7"):
         chk.floor(rule, "planted defects reported in the fixture", bad.get(rule, 0), 1)
     chk.observe("a deployment whose metadata has no name is written as `unknown.yaml` (several such deployments overwrite each other): outside the statement's 'valid names'")
     chk.observe("names with dots would make `x.secret.yaml` ambiguous; excluded because _DNS_1035_RE admits no dot (checked on the regex language)")
@@ -1345,7 +1686,31 @@ _WFUN = ('                if encryption_password is None:\n                    m
 _DCR = "cr_yaml = yaml.dump(cr, default_flow_style=False).encode()"
 _DSEC = "secret_yaml = yaml.dump(secret_data, default_flow_style=False).encode()"
 _IMP = "import yaml\n"
+_PSEC = "            secret_data = secrets.get(name)\n            if secret_data is not None:\n"
+_PGEN = "            if generations and name in generations:\n"
+_FSEC = "secret=secret_files.get(name),"
 TWINS: list[Twin] = [
+    # ---- R7: an optional value that is present but empty ({} / 0) is not absent (the seed's form first)
+    Twin("secret written under a walrus truthiness test: an empty Secret is backed up as absent", _AR, _PSEC, "            if secret_data := secrets.get(name):\n", "C33.R7"),
+    Twin("secret written under plain truthiness", _AR, "            if secret_data is not None:\n", "            if secret_data:\n", "C33.R7"),
+    Twin("secret written only when it has keys", _AR, "            if secret_data is not None:\n", "            if secret_data is not None and len(secret_data) > 0:\n", "C33.R7"),
+    Twin("generation file written under `.get(name)` truthiness: generation 0 is lost", _AR, _PGEN, "            if generations and generations.get(name):\n", "C33.R7"),
+    Twin("written payload replaces an empty secret by None", _AR, "yaml.dump(secret_data, default_flow_style=False)", "yaml.dump(secret_data or None, default_flow_style=False)", "C33.R7"),
+    Twin("reader side: empty secret collapsed to None in the entry", _AR, _FSEC, "secret=secret_files.get(name) or None,", "C33.R7"),
+    Twin("reader side: generation 0 collapsed to None in the entry", _AR, 'generation=meta.get("generation"),', 'generation=meta.get("generation") or None,', "C33.R7"),
+    Twin("reader side: clear secret stored only when non-empty", _AR, _SY, _SY.replace("                secret_files[deploy_name] = yaml.safe_load(content)\n",
+         "                loaded = yaml.safe_load(content)\n                if loaded:\n                    secret_files[deploy_name] = loaded\n"), "C33.R7"),
+    Twin("reader side: a deployment without a secret comes back with an empty one", _AR, _FSEC, "secret=secret_files.get(name, {}),", "C33.R7"),
+    Twin("benign: walrus, tested against None", _AR, _PSEC, "            if (secret_data := secrets.get(name)) is not None:\n", None),
+    Twin("benign: membership test, value taken by subscript", _AR, _PSEC, "            if name in secrets:\n                secret_data = secrets[name]\n", None),
+    Twin("benign: truthiness of the map itself next to the presence test (an empty map has no entry)", _AR, _PSEC, "            if secrets and (secret_data := secrets.get(name)) is not None:\n", None),
+    Twin("benign: generation map tested against None, value by .get against None", _AR, _PGEN, "            if generations is not None and generations.get(name) is not None:\n", None),
+    Twin("benign: absence spelled through a module-level constant and a local holding the test", _AR, *_multi(_AR, [
+        (_IMP, _IMP + "\n_NO_SECRET = None\n"),
+        (_PSEC, "            secret_data = secrets.get(name)\n            has_secret = secret_data is not _NO_SECRET\n            if has_secret:\n")]), None),
+    Twin("benign: reader entry by membership", _AR, _FSEC, "secret=secret_files[name] if name in secret_files else None,", None),
+    Twin("benign: reader stores through a local, no test", _AR, _SY, _SY.replace("                secret_files[deploy_name] = yaml.safe_load(content)\n",
+         "                loaded = yaml.safe_load(content)\n                secret_files[deploy_name] = loaded\n"), None),
     # ---- R6: options of the encoders vs what the decoders return unchanged
     Twin("both YAML dumps write unicode raw (NEL is folded into a space on reading)", _AR, *_multi(_AR, [
         (_DCR, 'cr_yaml = yaml.dump(\n                cr, default_flow_style=False, allow_unicode=True\n            ).encode("utf-8")'),
